@@ -11,8 +11,11 @@ SCENARIOS = {
     "same-process": [[("a", "maps")], [("a", "grouped")]],
     # one mapping each, one pre-emption more (a value handed from one thread to the other AND BACK takes two)
     "tiny-maps-vs-maps": [[("a", "maps")], [("b", "maps")]],
+    "tiny-maps-vs-full": [[("a", "maps")], [("b", "full")]],
+    "tiny-same-process": [[("a", "maps")], [("a", "grouped")]],
 }
-EXTRA_BOUND = {"tiny-maps-vs-maps": 1}
+EXTRA_BOUND = {"tiny-maps-vs-maps": 1, "tiny-maps-vs-full": 1, "tiny-same-process": 1}
+THOROUGH_ONLY = ("tiny-maps-vs-full", "tiny-same-process")
 PATHS_A = [b"/lib/a.so", b"", b"/lib/a.so"]
 PATHS_B = [b"[heap]", b"/srv/a b"]
 
@@ -143,11 +146,15 @@ def _task(arg):
 
 
 def run_s(ctx):
-    bound = 2 if ctx.thorough else 1
+    # (the full-size scenarios are explored with one pre-emption in both tiers: with two, a few first-level subtrees of the
+    #  800-point schedules take tens of minutes each; the second pre-emption is spent on the one-mapping scenarios instead)
+    bound = 1
     tot = {"executions": 0, "points": 0}
     viols, per, distinct = [], {}, 0
     bound0 = bound
     for scn in SCENARIOS:
+        if scn in THOROUGH_ONLY and not ctx.thorough:
+            continue
         bound = max(bound0, 1 + EXTRA_BOUND.get(scn, 0))
         h = Harness(scn)
         root = h.run([])
